@@ -81,3 +81,53 @@ Theorem C14_reachable_quiet_collection_falls_silent :
             (forall tk c, sp <> SItem tk c) /\ twakes (log w') = twakes (log w1).
 Proof. exact reachable_quiet_polls_reach_silence. Qed.
 Print Assumptions C14_reachable_quiet_collection_falls_silent.
+
+(** the layers above: FuturesOrderedBounded (no parked output due for release) *)
+From FB Require Import Ordered Adapters QuietOrdered.
+Theorem C14_ordered_bounded_quiet_poll :
+  forall (P : params) (k : ckind) (q : fob) (t : nat) (w : world) (kb : block),
+  quiet_map k (tasks (fo_inner q)) -> noinj w -> get_blk w (blk (fo_inner q)) = Some kb ->
+  fub_len (fo_inner q) <> 0 ->
+  ord_try_release P (fo_ord (fob_rebase P q)) = None ->
+  let '(q', sp, w') := fob_poll_next P k q t w in
+  sp = SPending /\ quiet_map k (tasks (fo_inner q')) /\ noinj w' /\ blk (fo_inner q') = blk (fo_inner q)
+  /\ (exists kb', get_blk w' (blk (fo_inner q)) = Some kb' /\ bqueue kb' = skipn (pB P) (bqueue kb))
+  /\ twakes (log w') = twakes (log w) + (if Nat.ltb (length (bqueue kb)) (pB P) then 0 else 1).
+Proof. exact fob_poll_quiet. Qed.
+Print Assumptions C14_ordered_bounded_quiet_poll.
+
+(** FuturesOrdered: the quiet poll of its inner group loop *)
+Theorem C14_ordered_quiet_poll :
+  forall (P : params) (q : fo) (t : nat) (w : world) (m : nat),
+  NoDup (blks (groups (fu_inner q))) -> noinj w -> Forall (QL false m w) (groups (fu_inner q)) ->
+  ord_try_release P (fu_ord (fo_rebase P q)) = None ->
+  let '(q', sp, w') := fo_poll_next P q t w in
+  (forall tk c, sp <> SItem tk c) /\ noinj w' /\ NoDup (blks (groups (fu_inner q')))
+  /\ Forall (QL false (m - pB P) w') (groups (fu_inner q'))
+  /\ twakes (log w') <= twakes (log w) + (if Nat.ltb m (pB P) then 0 else length (groups (fu_inner q))).
+Proof. exact fo_poll_quiet. Qed.
+Print Assumptions C14_ordered_quiet_poll.
+
+(** buffered_unordered / try_buffered_unordered with an upstream that answers Pending without
+    waking anything (or is gone): the adapter adds nothing to what its queue does *)
+Theorem C14_buffered_unordered_quiet_poll :
+  forall (P : params) (a : adapter) (t : nat) (w : world) (f : fub) (kb : block),
+  ad_q a = QU f -> up_quiet (ad_up a) ->
+  quiet_map (ad_kind a) (tasks f) -> noinj w -> get_blk w (blk f) = Some kb -> fub_len f <> 0 ->
+  let '(a', r, w') := adapter_poll P a t w in
+  r = RetPending
+  /\ twakes (log w') = twakes (log w) + (if Nat.ltb (length (bqueue kb)) (pB P) then 0 else 1).
+Proof. exact adapter_poll_quiet. Qed.
+Print Assumptions C14_buffered_unordered_quiet_poll.
+
+(** buffered_ordered / try_buffered_ordered *)
+Theorem C14_buffered_ordered_quiet_poll :
+  forall (P : params) (a : adapter) (t : nat) (w : world) (o : fob) (kb : block),
+  ad_q a = QO o -> up_quiet (ad_up a) ->
+  quiet_map (ad_kind a) (tasks (fo_inner o)) -> noinj w -> get_blk w (blk (fo_inner o)) = Some kb ->
+  fub_len (fo_inner o) <> 0 -> ord_try_release P (fo_ord (fob_rebase P o)) = None ->
+  let '(a', r, w') := adapter_poll P a t w in
+  r = RetPending
+  /\ twakes (log w') = twakes (log w) + (if Nat.ltb (length (bqueue kb)) (pB P) then 0 else 1).
+Proof. exact adapter_ordered_poll_quiet. Qed.
+Print Assumptions C14_buffered_ordered_quiet_poll.
